@@ -17,9 +17,12 @@ use tantivy::collector::{Collector, SegmentCollector, TopDocs};
 use tantivy::fieldnorm::FieldNormReader;
 use tantivy::indexer::NoMergePolicy;
 use tantivy::query::{
-    Bm25StatisticsProvider, Bm25Weight, BooleanQuery, BoostQuery, ConstScoreQuery, DisjunctionMaxQuery, Occur,
-    PhraseQuery, Query, TermQuery,
+    Bm25StatisticsProvider, Bm25Weight, BooleanQuery, BoostQuery, ConstScoreQuery, DisjunctionMaxQuery, EnableScoring,
+    Explanation, Occur, PhraseQuery, Query, Scorer, TermQuery, Weight,
 };
+use tantivy::DocSet;
+use std::sync::atomic::{AtomicU64, Ordering};
+use std::sync::Arc;
 use tantivy::schema::{Field, IndexRecordOption, Schema, FAST, INDEXED, STORED, TEXT};
 use tantivy::{DocAddress, DocId, Index, IndexWriter, Score, Searcher, SegmentOrdinal, SegmentReader, TantivyDocument, Term};
 use tvh::out::CaseOut;
@@ -56,16 +59,32 @@ fn default_msm(cs: &[(Occ, Q)]) -> usize {
 }
 
 impl Q {
-    fn build(&self, f: Field) -> Box<dyn Query> {
+    fn build(&self, f: Field) -> Box<dyn Query> { self.build_p(f, None) }
+    /// with `probe`: every term leaf is wrapped in a ProbeQuery (same documents, same scores, same explanations)
+    fn build_p(&self, f: Field, probe: Option<&Arc<AtomicU64>>) -> Box<dyn Query> {
         match self {
-            Q::Term(t) => Box::new(TermQuery::new(Term::from_field_text(f, &term_text(*t)), IndexRecordOption::WithFreqs)),
+            Q::Term(t) => {
+                let tq: Box<dyn Query> = Box::new(TermQuery::new(Term::from_field_text(f, &term_text(*t)), IndexRecordOption::WithFreqs));
+                match probe { Some(c) => Box::new(ProbeQuery { inner: tq, backward: c.clone() }), None => tq }
+            }
             Q::Phrase(ts) => Box::new(PhraseQuery::new(ts.iter().map(|t| Term::from_field_text(f, &term_text(*t))).collect())),
-            Q::Boost(q, b) => Box::new(BoostQuery::new(q.build(f), *b)),
-            Q::Const(q, s) => Box::new(ConstScoreQuery::new(q.build(f), *s)),
+            Q::Boost(q, b) => Box::new(BoostQuery::new(q.build_p(f, probe), *b)),
+            Q::Const(q, s) => Box::new(ConstScoreQuery::new(q.build_p(f, probe), *s)),
             Q::Bool(cs) => Box::new(BooleanQuery::new(cs.iter().map(|(o, q)| {
-                (match o { Occ::Must => Occur::Must, Occ::Should => Occur::Should, Occ::MustNot => Occur::MustNot }, q.build(f))
+                (match o { Occ::Must => Occur::Must, Occ::Should => Occur::Should, Occ::MustNot => Occur::MustNot }, q.build_p(f, probe))
             }).collect())),
-            Q::DisMax(qs, tie) => Box::new(DisjunctionMaxQuery::with_tie_breaker(qs.iter().map(|q| q.build(f)).collect(), *tie)),
+            Q::DisMax(qs, tie) => Box::new(DisjunctionMaxQuery::with_tie_breaker(qs.iter().map(|q| q.build_p(f, probe)).collect(), *tie)),
+        }
+    }
+    /// the nodes whose Weight::explain seeks a fresh scorer without checking `scorer.doc() > doc`
+    fn unguarded_nodes<'a>(&'a self, acc: &mut Vec<&'a Q>) {
+        match self {
+            Q::Term(_) => {}
+            Q::Phrase(_) => acc.push(self),
+            Q::Boost(q, _) => q.unguarded_nodes(acc),
+            Q::Const(q, _) => { acc.push(self); q.unguarded_nodes(acc); }
+            Q::Bool(cs) => { acc.push(self); cs.iter().for_each(|(_, q)| q.unguarded_nodes(acc)); }
+            Q::DisMax(qs, _) => { acc.push(self); qs.iter().for_each(|q| q.unguarded_nodes(acc)); }
         }
     }
     fn n_leaves(&self) -> usize {
@@ -116,6 +135,49 @@ impl Q {
         }
     }
 }
+
+
+// ------------------------------------------------------------------------------------------------
+// DocSet-contract probe: a transparent wrapper around a term query whose scorer counts the calls
+// `seek(target)` with `target < doc()` (forbidden by DocSet::seek; TermScorer / PhraseScorer debug_assert it, so
+// in a debug build such a call is a panic inside explain()).  Its own explain is guarded like TermWeight::explain.
+
+struct ProbeQuery { inner: Box<dyn Query>, backward: Arc<AtomicU64> }
+impl Clone for ProbeQuery { fn clone(&self) -> Self { ProbeQuery { inner: self.inner.box_clone(), backward: self.backward.clone() } } }
+impl std::fmt::Debug for ProbeQuery { fn fmt(&self, f: &mut std::fmt::Formatter) -> std::fmt::Result { write!(f, "Probe({:?})", self.inner) } }
+impl Query for ProbeQuery {
+    fn weight(&self, es: EnableScoring<'_>) -> tantivy::Result<Box<dyn Weight>> {
+        Ok(Box::new(ProbeWeight { inner: self.inner.weight(es)?, backward: self.backward.clone() }))
+    }
+    fn query_terms<'a>(&'a self, visitor: &mut dyn FnMut(&'a Term, bool)) { self.inner.query_terms(visitor) }
+}
+struct ProbeWeight { inner: Box<dyn Weight>, backward: Arc<AtomicU64> }
+impl Weight for ProbeWeight {
+    fn scorer(&self, reader: &SegmentReader, boost: Score) -> tantivy::Result<Box<dyn Scorer>> {
+        Ok(Box::new(ProbeScorer { inner: self.inner.scorer(reader, boost)?, backward: self.backward.clone() }))
+    }
+    fn explain(&self, reader: &SegmentReader, doc: DocId) -> tantivy::Result<Explanation> {
+        let mut sc = self.scorer(reader, 1.0)?;
+        if sc.doc() > doc || sc.seek(doc) != doc {
+            return Err(tantivy::TantivyError::InvalidArgument(format!("Document #({doc}) does not match")));
+        }
+        self.inner.explain(reader, doc)
+    }
+}
+struct ProbeScorer { inner: Box<dyn Scorer>, backward: Arc<AtomicU64> }
+impl DocSet for ProbeScorer {
+    fn advance(&mut self) -> DocId { self.inner.advance() }
+    fn seek(&mut self, target: DocId) -> DocId {
+        if target < self.inner.doc() {
+            self.backward.fetch_add(1, Ordering::SeqCst);
+            return self.inner.doc();   // lenient, like the release build of the wrapped scorer
+        }
+        self.inner.seek(target)
+    }
+    fn doc(&self) -> DocId { self.inner.doc() }
+    fn size_hint(&self) -> u32 { self.inner.size_hint() }
+}
+impl Scorer for ProbeScorer { fn score(&mut self) -> Score { self.inner.score() } }
 
 // ------------------------------------------------------------------------------------------------
 // independent evaluation on one document (the harness's own arithmetic, mirrors the Rust order of operations)
@@ -812,6 +874,7 @@ fn main() {
     let n_queries = if thorough { 14 } else { 9 };
     let mut coq_b: i64 = if thorough { 2200 } else { 520 };
     let mut coq_stats: i64 = if thorough { 200 } else { 50 };
+    let mut coq_f42: i64 = if thorough { 80 } else { 25 };
     let mut coq_huge: i64 = if thorough { 300 } else { 90 };
     let (mut coq_f40, mut coq_f41): (i64, i64) = if thorough { (150, 150) } else { (40, 40) };
     for ci in 0..n_corpora {
@@ -829,6 +892,7 @@ fn main() {
         cuts.sort(); cuts.dedup();
         let with_deletes = ci % 3 == 1 && n_docs >= 2 && !huge;
         if huge { out.count("huge_segment_corpora", 1); }
+        let probing = !huge && n_docs <= 80 && ci % 3 == 0;
         let mut deleted = vec![false; n_docs];
         if with_deletes {
             for i in 0..n_docs { deleted[i] = rng.chance(1, 4); }
@@ -925,10 +989,47 @@ fn main() {
             ];
         }
         while queries.len() < n_queries { queries.push(gen_query(&mut rng, corpus.n_terms, 2)); }
+        // directed: conjunctions in which a COMPOSITE clause (required/optional, union, dis-max, const, nested
+        // conjunction) is ANDed with a strictly rarer clause, in both orders: Intersection drives its cheapest clause
+        // with seek()/advance() and moves every other clause with seek_danger(), so the composite scorers are scored
+        // after seek_danger on every document but the first
+        {
+            let mut by_df: Vec<usize> = idf.keys().cloned().collect();
+            by_df.sort_by_key(|t| (df[t], *t));
+            if by_df.len() >= 3 {
+                let (rare, common, mid) = (by_df[0], by_df[by_df.len() - 1], by_df[by_df.len() / 2]);
+                let other = by_df[1];
+                let composite = |kind: u64, a: usize, b: usize| -> Q {
+                    match kind {
+                        0 => Q::Bool(vec![(Occ::Must, Q::Term(a)), (Occ::Should, Q::Term(b))]),
+                        1 => Q::Bool(vec![(Occ::Should, Q::Term(a)), (Occ::Should, Q::Term(b))]),
+                        2 => Q::DisMax(vec![Q::Term(a), Q::Term(b)], 0.5),
+                        3 => Q::Bool(vec![(Occ::Must, Q::Term(a)), (Occ::Should, Q::Boost(Box::new(Q::Term(b)), 2.0)), (Occ::Should, Q::Term(other))]),
+                        4 => Q::Boost(Box::new(Q::Bool(vec![(Occ::Must, Q::Term(a)), (Occ::Should, Q::Term(b))])), 1.5),
+                        5 => Q::Bool(vec![(Occ::Must, Q::Term(a)), (Occ::Should, Q::Phrase(vec![a, b]))]),
+                        _ => Q::Bool(vec![(Occ::Must, Q::Term(a)), (Occ::Should, Q::Const(Box::new(Q::Term(b)), 0.42))]),
+                    }
+                };
+                let n_directed = if huge { 2 } else { 4 };
+                for j in 0..n_directed {
+                    let kind = if j == 0 { 0 } else { rng.below(7) };
+                    let comp = composite(kind, common, mid);
+                    let lead = if rng.chance(1, 4) { Q::Boost(Box::new(Q::Term(rare)), 2.0) } else { Q::Term(rare) };
+                    let mut cs = if rng.chance(1, 2) { vec![(Occ::Must, comp), (Occ::Must, lead)] } else { vec![(Occ::Must, lead), (Occ::Must, comp)] };
+                    if rng.chance(1, 4) { cs.push((Occ::Must, composite(rng.below(7), mid, common))); }
+                    if rng.chance(1, 5) { cs.push((Occ::Should, Q::Term(other))); }
+                    queries.push(Q::Bool(cs));
+                    out.count("directed_composite_conjunctions", 1);
+                }
+            }
+        }
         for q in &queries {
             let mut ts = vec![]; q.terms(&mut ts);
             if ts.iter().any(|t| !idf.contains_key(t)) { out.count("queries_skipped_term_absent", 1); continue; }
             let tq = q.build(field);
+            let probe_ctr = Arc::new(AtomicU64::new(0));
+            let tqp = if probing { Some(q.build_p(field, Some(&probe_ctr))) } else { None };
+            let mut firsts_cache: BTreeMap<usize, Vec<u32>> = BTreeMap::new();
             // on the huge segment a top-level dis-max goes through TopDocs with a small K only (its TopDocs path is F40:
             // thousands of identical known cases add nothing); every document is still checked through the
             // scoring collector (for_each -> BufferedUnionScorer) and explain
@@ -965,6 +1066,33 @@ fn main() {
                     let desc = json!({"query": q.show(), "doc": i, "addr": [o, d], "len": corpus.docs[*i].len(), "N": total_docs, "T": total_tokens, "segments": built.seg_docs.len(), "deletes": with_deletes, "seed": args.seed, "corpus": ci});
                     let addr = DocAddress::new(o as u32, d as u32);
                     let expl = guarded(|| tq.explain(searcher, addr));
+                    // DocSet-contract probe: the same query with every term leaf wrapped; explain must never seek backwards
+                    if let Some(tqp) = &tqp {
+                        let before = probe_ctr.load(Ordering::SeqCst);
+                        let pe = guarded(|| tqp.explain(searcher, addr));
+                        let viol = probe_ctr.load(Ordering::SeqCst) - before;
+                        let same = match (&expl, &pe) { (Ok(Ok(a)), Ok(Ok(b))) => a.value().to_bits() == b.value().to_bits(), (Ok(Err(_)), Ok(Err(_))) => true, _ => false };
+                        out.spec_checked(same, json!({"what": "explain of the probe-wrapped query differs from explain of the query", "case": desc}));
+                        out.count("probe_explains", 1);
+                        if viol > 0 {
+                            let firsts = firsts_cache.entry(o).or_insert_with(|| {
+                                let mut nodes = vec![]; q.unguarded_nodes(&mut nodes);
+                                nodes.iter().map(|n| built.seg_docs[o].iter().position(|(i2, _)| {
+                                    DocCtx { tokens: &corpus.docs[*i2], total_tokens, total_docs, idf: &idf, table: &table }.is_hit(n)
+                                }).map(|p| p as u32).unwrap_or(2147483647)).collect()
+                            }).clone();
+                            out.count("f42_explain_backward_seek", 1);
+                            let d42 = json!({"what": "explain() calls seek(target) with target < scorer.doc() on a fresh scorer (DocSet contract; a panic in debug builds)", "known": "F42", "backward_seeks": viol, "doc_id": d, "first_match_of_unguarded_nodes": firsts, "matching": mine.is_some(), "case": desc});
+                            if coq_f42 > 0 {
+                                coq_f42 -= 1;
+                                out.coq_case("known:F42", format!("known_f42 {} {}", d, tvh::coqfmt::ns(&firsts)), d42, true);
+                            } else if firsts.iter().any(|f| (d as u32) < *f) {
+                                out.spec_checked(false, d42);   // bulk: same classifier, decided on the Rust side
+                            } else {
+                                out.spec_checked(false, json!({"what": "explain() seeks backwards (outside the class of F42)", "backward_seeks": viol, "case": desc}));
+                            }
+                        } else { out.spec_checked(true, Value::Null); }
+                    }
                     let Some(want) = mine else {
                         // not matching: no collector reports it, explain refuses
                         out.spec_checked(!all_map.contains_key(&key) && !top_map.contains_key(&key), json!({"what": "a non-matching document was scored", "case": desc}));
